@@ -259,6 +259,32 @@ class DatabaseState(object):
 
         del indexes[index_name]
 
+    def remove_column_indexes(self, table_name, column):
+        """Remove all recorded indexes that cover a column.
+
+        This is used when a column is deleted, which removes the indexes on
+        it from the database.
+
+        Args:
+            table_name (unicode):
+                The name of the table.
+
+            column (unicode):
+                The name of the column being deleted.
+        """
+        table_name = self._norm_table_name(table_name)
+
+        for unique in (False, True):
+            try:
+                indexes = self._get_indexes_dict(table_name=table_name,
+                                                 unique=unique)
+            except KeyError:
+                continue
+
+            for index_name, index_state in list(six.iteritems(indexes)):
+                if column in index_state.columns:
+                    del indexes[index_name]
+
     def get_index(self, table_name, index_name, unique=False):
         """Return the index state for a given name.
 
